@@ -86,3 +86,64 @@ def ap_handle_faucet():
                    && exists|m: CoinDataHeight| is_marker_cdh(m) && #[trigger] view_insert(old(state).coins@, spec_marker(spec_txhash(*tx)), m, spec_tip906(*old(state))) == final(state).coins@""", "C19"),
             C("grandfathered", "res is Ok && tx.kind == TxKind::Faucet && is_grandfathered(spec_txhash(*tx)) ==> final(state).coins@ == old(state).coins@", "C19", char=True),
         ])
+
+def ap_balanced():
+    return dict(ensures=[C("iff", "res is Ok <==> balanced(tx_kind, in_coins@, out_coins@)", "C01", "C02"),
+                         C("err", "res is Err ==> res->Err_0 is UnbalancedInOut", "C01", char=True)])
+
+def ap_stake_consistent():
+    return dict(ensures=[C("iff", "res == stake_consistent(*stake_doc, curr_epoch, *coin)", "C13")])
+
+def ap_coin_is_denom():
+    return dict(ensures=[C("iff", "res == (coin_data.denom == denom)", "C13")])
+
+def ap_load_stake_info():
+    return dict(ensures=[
+        C("registered", "res is Ok && !stake_legacy(this.network, this.height) ==> stakes_of(txx@, txx@.len() as int, (this.height.0 / 200000) as u64, res->Ok_0@)", "C13"),
+        C("legacy", "res is Ok && stake_legacy(this.network, this.height) ==> res->Ok_0@ == Map::<TxHash, StakeDoc>::empty()", "C13", char=True),
+        C("malformed", "res is Ok && !stake_legacy(this.network, this.height) ==> forall|q: int| 0 <= q < txx@.len() ==> !stake_malformed(#[trigger] txx@[q])", "C13", "C09"),
+        C("err", "res is Err ==> res->Err_0 is MalformedTx && !stake_legacy(this.network, this.height) && exists|q: int| 0 <= q < txx@.len() && stake_malformed(#[trigger] txx@[q])", "C13"),
+    ])
+
+# ---- melvm (lib/melvm/src/lib.rs) as seen by callers
+def mv_from_bytes():
+    return dict(ensures=[C("decodes", "match spec_cov_decode(b@) { Some(c) => res == Ok::<Covenant, DecodeError>(c), None => res is Err }", "C12", "C04")])
+
+def mv_execute():
+    return dict(ensures=[C("runs", "res == spec_exec(*self, *tx, env)", "C10", "C04")])
+
+def mv_into_bool():
+    return dict(ensures=[C("truthy", "res == spec_truthy(self)", "C10", "C04")])
+
+def ap_validate_tx_scripts():
+    ENV = "CovenantEnv { parent_coinid: *coin_id, parent_cdh: *coin_data, spender_index: spend_idx as u8, last_header: last_header }"
+    CH = "coin_data.coin_data.covhash"
+    return dict(ensures=[
+        C("iff", f"res is Ok <==> (good_scripts@.contains({CH}) || script_approves(scripts@, {CH}, *tx, {ENV}))", "C04"),
+        C("missing", f"!good_scripts@.contains({CH}) && !scripts@.contains_key({CH}) ==> res is Err && res->Err_0 is NonexistentScript", "C04"),
+        C("undecodable", f"!good_scripts@.contains({CH}) && scripts@.contains_key({CH}) && spec_cov_decode(scripts@[{CH}]@) is None ==> res is Err && res->Err_0 is MalformedTx", "C04"),
+        C("err_kinds", "res is Err ==> res->Err_0 is NonexistentScript || res->Err_0 is MalformedTx || res->Err_0 is ViolatesScript", "C04", char=True),
+    ])
+
+SMT_WRAP = "impl<C: ContentAddrStore, K, V> SmtMapping<C, K, V>"
+def smt_get():
+    return dict(ensures=[C("get", "res == (if self@.contains_key(*key) { Some(self@[*key]) } else { None::<V> })", "C07")])
+
+def st_seal():
+    return dict(ensures=[C("seal", "res.0 == spec_seal(self, action) && res.1 == action", "C06")])
+
+def ap_check_tx_validity():
+    return dict(
+        requires=[
+            C("outputs_fit", "outputs_fit(*tx)", note="established by load_relevant_coins' overflow guard"),
+            C("inputs_fit", "fsum(tx.inputs@, in_value(relevant_coins@)) <= u128::MAX", note="C09 envelope: the values of the coins a transaction spends fit in u128 (supply <= 2^127; `overflow_coins` pins the panic outside it)"),
+            C("small", "tx.inputs@.len() <= 256", envelope_of="F-C04-index", note="the environment's spender index is `i as u8`"),
+            C("distinct_cov", "forall|a: int, b: int| 0 <= a < b < tx.inputs@.len() && relevant_coins@.contains_key(tx.inputs@[a]) && relevant_coins@.contains_key(tx.inputs@[b]) ==> relevant_coins@[tx.inputs@[a]].coin_data.covhash != relevant_coins@[tx.inputs@[b]].coin_data.covhash", envelope_of="F-C04-cache"),
+        ],
+        ensures=[
+            C("exist", "res is Ok ==> forall|i: int| 0 <= i < tx.inputs@.len() ==> relevant_coins@.contains_key(#[trigger] tx.inputs@[i])", "C02", "C04"),
+            C("unlocked", "res is Ok && !lock_legacy(this.network, this.height) ==> forall|i: int| 0 <= i < tx.inputs@.len() ==> !new_stakes@.contains_key((#[trigger] tx.inputs@[i]).txhash) && !this.stakes@.contains_key(tx.inputs@[i].txhash)", "C13"),
+            C("approved", "res is Ok ==> forall|i: int| 0 <= i < tx.inputs@.len() ==> script_approves(spec_covenants_map(*tx), relevant_coins@[tx.inputs@[i]].coin_data.covhash, *tx, #[trigger] env_of(*tx, relevant_coins@, i, spec_last_header(*this)))", "C04"),
+            C("balanced", "res is Ok ==> balanced(tx.kind, in_sums(tx.inputs@, relevant_coins@, tx.inputs@.len() as int), spec_total_outputs(*tx))", "C01", "C02"),
+            C("locked_err", "(exists|i: int| 0 <= i < tx.inputs@.len() && (new_stakes@.contains_key((#[trigger] tx.inputs@[i]).txhash) || this.stakes@.contains_key(tx.inputs@[i].txhash))) && !lock_legacy(this.network, this.height) ==> res is Err", "C13"),
+        ])
